@@ -20,6 +20,17 @@ package main
 // boundaries and reports whether the three requests deadlock; the Lean side
 // predicts the same from the extracted scripts by exhaustive search of the
 // lock-table model.
+//
+// `REPRO last-detachers a=<detach|deactivate> b=<detach|deactivate>` runs, on a second
+// project with RemoveOnDetach and WITHOUT an attachment limit, the two last holders of a
+// document leaving it at the same time (SDK DetachDocument, or DeactivateClient = cluster
+// DetachDocument). The first request is held at the yield point "push.before" of
+// server/packs (its decision "is anyone else attached?" is taken, nothing stored yet) until
+// the second one either stands at the doc.attachment lock (the decision and the PushPull
+// that stores it are atomic) or has reached "push.before" as well (they are not). Oracle:
+// once nobody holds the document it has been removed. The Lean side predicts the
+// observation from the extracted condition of the doc.attachment acquisition of the two
+// handlers (Generated/Locks.lean `Site.cond`).
 
 import (
 	"context"
@@ -134,7 +145,13 @@ type recorder struct {
 	unknown   int
 	rng       *rand.Rand
 	yieldP    float64
-	orch      *orchestrator
+	orch      lockOrch
+}
+
+// lockOrch is told about every lock boundary (after the recorder's own bookkeeping, outside
+// its mutex); used by the forced interleavings.
+type lockOrch interface {
+	at(handler, cls, mode, phase string, nHeld int)
 }
 
 func newRecorder(seed int64, yieldP float64) *recorder {
@@ -354,6 +371,7 @@ type locksEng struct {
 	bound   gotime.Duration
 	nClient int64
 	wedged  bool // a request never returned: the server cannot be used (or shut down) any more
+	rod     *types.Project // second project: RemoveOnDetach, no attachment limit (created on first use)
 }
 
 func freePort() int {
@@ -992,6 +1010,224 @@ func (e *locksEng) repro(line string) {
 	e.svr = nil
 }
 
+
+// ---------------------------------------------------------------- forced interleaving 2: the last two detachers
+
+// activeDetachOrch receives the packs.VerifYield callbacks while a last-detachers scenario runs.
+var activeDetachOrch atomic.Pointer[detachOrch]
+
+type detachOrch struct {
+	mu        gosync.Mutex
+	docID     string
+	atPush    int
+	attBegins int
+	secondAt  string // where the second request was when the first one was let go
+	second    chan struct{}
+	once      gosync.Once
+	patience  gotime.Duration
+}
+
+func (o *detachOrch) seen(where string) {
+	o.once.Do(func() { o.secondAt = where; close(o.second) })
+}
+
+// yield is packs.VerifYield: the first request to reach "push.before" waits for the second.
+func (o *detachOrch) yield(point, clientID, docID string) {
+	if point != "push.before" || docID != o.docID {
+		return
+	}
+	o.mu.Lock()
+	o.atPush++
+	n := o.atPush
+	if n == 2 {
+		o.seen("push")
+	}
+	o.mu.Unlock()
+	if n == 1 {
+		select {
+		case <-o.second:
+		case <-gotime.After(o.patience):
+		}
+	}
+}
+
+// at: the second detach handler that starts to acquire doc.attachment finds it held by the first.
+func (o *detachOrch) at(handler, cls, mode, phase string, nHeld int) {
+	if cls != "DocAttachmentKey" || phase != "acquire-begin" {
+		return
+	}
+	if handler != "server/rpc.yorkieServer.DetachDocument" && handler != "server/rpc.clusterServer.DetachDocument" {
+		return
+	}
+	o.mu.Lock()
+	o.attBegins++
+	if o.attBegins == 2 {
+		o.seen("attachment-lock")
+	}
+	o.mu.Unlock()
+}
+
+func (e *locksEng) rodProject(ctx context.Context) (*types.Project, error) {
+	if e.rod != nil {
+		return e.rod, nil
+	}
+	p, err := e.adm.CreateProject(ctx, fmt.Sprintf("c16-rod-%d", os.Getpid()%1000000))
+	if err != nil {
+		return nil, err
+	}
+	yes, noLimit := true, 0
+	p, err = e.adm.UpdateProject(ctx, p.ID.String(), &types.UpdatableProjectFields{RemoveOnDetach: &yes, MaxAttachmentsPerDocument: &noLimit})
+	if err != nil {
+		return nil, err
+	}
+	if !p.RemoveOnDetach || p.HasAttachmentLimit() {
+		return nil, fmt.Errorf("project setup: RemoveOnDetach=%v HasAttachmentLimit=%v", p.RemoveOnDetach, p.HasAttachmentLimit())
+	}
+	e.rod = p
+	return p, nil
+}
+
+func (e *locksEng) lastDetachers(line string) {
+	c := e.c
+	c.Cmd("%s", line)
+	via := [2]string{"detach", "detach"}
+	for _, t := range strings.Fields(line)[2:] {
+		switch {
+		case strings.HasPrefix(t, "a="):
+			via[0] = t[2:]
+		case strings.HasPrefix(t, "b="):
+			via[1] = t[2:]
+		}
+	}
+	for _, v := range via {
+		if v != "detach" && v != "deactivate" {
+			c.Obs("bad-op")
+			return
+		}
+	}
+	bail := func(what string, err error) {
+		c.Obs("repro-error %s", what)
+		c.Oracle("last-detachers: %s: %v", what, err)
+	}
+	ctx, cancel := context.WithCancel(context.Background())
+	defer cancel()
+	be := e.svr.Backend()
+	proj, err := e.rodProject(ctx)
+	if err != nil {
+		bail("project", err)
+		return
+	}
+	rec := newRecorder(1, 0)
+	activeRecorder.Store(rec)
+	dk := key.Key(fmt.Sprintf("c16-rod-%d-%d", os.Getpid(), e.c.stats.Traces))
+	var clis [2]*client.Client
+	var docs [2]*document.Document
+	for i := range clis {
+		cli, err := client.Dial(e.addr, client.WithAPIKey(proj.PublicKey))
+		if err != nil {
+			bail("dial", err)
+			return
+		}
+		defer func() { _ = cli.Close() }()
+		if err := cli.Activate(ctx); err != nil {
+			bail("activate", err)
+			return
+		}
+		d := document.New(dk)
+		if err := cli.Attach(ctx, d); err != nil {
+			bail("attach", err)
+			return
+		}
+		_ = d.Update(func(root *json.Object, p *presence.Presence) error { root.SetInteger(fmt.Sprintf("k%d", i), i); return nil })
+		if err := cli.Sync(ctx); err != nil {
+			bail("sync", err)
+			return
+		}
+		clis[i], docs[i] = cli, d
+	}
+	info, err := documents.FindDocInfoByKey(ctx, be, proj, dk)
+	if err != nil {
+		bail("find document", err)
+		return
+	}
+	ref := info.RefKey()
+	// let the background snapshot goroutines of the syncs finish
+	gotime.Sleep(50 * gotime.Millisecond)
+
+	o := &detachOrch{docID: ref.DocID.String(), second: make(chan struct{}), patience: 5 * gotime.Second}
+	rec.mu.Lock()
+	rec.orch = o
+	rec.mu.Unlock()
+	activeDetachOrch.Store(o)
+	errs := make(chan error, 2)
+	for i := range clis {
+		go func(i int) {
+			if via[i] == "deactivate" {
+				errs <- clis[i].Deactivate(ctx)
+			} else {
+				errs <- clis[i].Detach(ctx, docs[i])
+			}
+		}(i)
+	}
+	returned := 0
+	deadline := gotime.After(e.bound)
+	for returned < 2 {
+		select {
+		case err := <-errs:
+			returned++
+			c.Count("last-detachers:" + errKind(err))
+			if err != nil {
+				c.Oracle("last-detachers: a request failed: %v", err)
+			}
+		case <-deadline:
+			activeDetachOrch.Store(nil)
+			p := filepath.Join(c.Out, fmt.Sprintf("goroutines-rod-%d.txt", os.Getpid()))
+			dumpGoroutines(p)
+			c.Obs("timeout")
+			c.Oracle("last-detachers: %d of 2 requests did not return within %s; blocked at locks: %v; goroutine dump %s",
+				2-returned, e.bound, rec.blocked(gotime.Second), p)
+			e.wedged = true
+			return
+		}
+	}
+	activeDetachOrch.Store(nil)
+	rec.mu.Lock()
+	rec.orch = nil
+	rec.mu.Unlock()
+	o.mu.Lock()
+	secondAt := o.secondAt
+	o.mu.Unlock()
+	if secondAt == "" {
+		secondAt = "none"
+	}
+	attached, err := be.DB.IsDocumentAttachedOrAttaching(ctx, ref, "")
+	if err != nil {
+		bail("attached?", err)
+		return
+	}
+	after, err := be.DB.FindDocInfoByRefKey(ctx, ref)
+	if err != nil {
+		bail("find document after", err)
+		return
+	}
+	c.Count("last-detachers:second-at-" + secondAt)
+	c.Obs("second=%s attached=%v removed=%v", secondAt, attached, after.IsRemoved())
+	if secondAt != "none" {
+		c.Nontrivial()
+	}
+	if attached {
+		c.Oracle("last-detachers (%s/%s): the document is still attached after both clients left it", via[0], via[1])
+	} else if !after.IsRemoved() {
+		c.Oracle("RemoveOnDetach project without attachment limit: the last two holders of a document left it concurrently (%s/%s; the second "+
+			"request was at %s while the first one stood between its decision and its PushPull), nobody holds the document any more, but it "+
+			"was NOT removed: each request saw the other client still attached (decision and stored detach are not atomic)", via[0], via[1], secondAt)
+	}
+	if via[0] == "detach" && via[1] == "detach" && after.IsRemoved() &&
+		docs[0].Status() != document.StatusRemoved && docs[1].Status() != document.StatusRemoved {
+		c.Oracle("last-detachers: the document was removed but no client was told so")
+	}
+}
+
 // ---------------------------------------------------------------- engine
 
 // raceEnabled is set by race_on.go when the harness is built with -race.
@@ -1025,13 +1261,21 @@ func reportRaces(c *Ctx) {
 func runLocks(c *Ctx) error {
 	c.stats.Rule = "free-running load of N clients x M documents on a real in-process server (memory DB) with compaction, " +
 		"housekeeping and background snapshots, yields injected at lock boundaries; " +
-		"non-trivial = at least one contended acquisition (lock already held when requested) and acquisition sequences of >= 5 different handlers observed; distinct by trace hash"
+		"non-trivial = at least one contended acquisition (lock already held when requested) and acquisition sequences of >= 5 different handlers observed; distinct by trace hash; " +
+		"plus per run three forced interleavings of the two last holders of a document leaving a RemoveOnDetach project without attachment limit " +
+		"(SDK detach / deactivation), the first held between its attachment decision and its PushPull; non-trivial = the second request was observed " +
+		"at the doc.attachment lock or at the same yield point"
 	if err := checkLockClasses(); err != nil {
 		return err
 	}
 	lsync.VerifLockEvent = func(gid uint64, k, mode, phase string) {
 		if r := activeRecorder.Load(); r != nil {
 			r.event(gid, k, mode, phase)
+		}
+	}
+	packs.VerifYield = func(point, clientID, docID string) {
+		if o := activeDetachOrch.Load(); o != nil {
+			o.yield(point, clientID, docID)
 		}
 	}
 	e := &locksEng{c: c, bound: 20 * gotime.Second}
@@ -1063,6 +1307,8 @@ func runLocks(c *Ctx) error {
 				c.Cmd("%s", l)
 				e.load(l)
 				loaded = true
+			case strings.HasPrefix(l, "REPRO last-detachers"):
+				e.lastDetachers(l)
 			case strings.HasPrefix(l, "REPRO"):
 				e.repro(l)
 			case strings.HasPrefix(l, "SEQ"):
@@ -1094,6 +1340,16 @@ func runLocks(c *Ctx) error {
 		e.load(l)
 		if e.wedged {
 			break
+		}
+	}
+	// the forced interleaving of the two last detachers (SDK detach and deactivation)
+	if !e.wedged {
+		for k, v := range [][2]string{{"detach", "detach"}, {"detach", "deactivate"}, {"deactivate", "deactivate"}} {
+			c.Trace(fmt.Sprintf("locks-rod-%d-%d", c.Seed, k))
+			e.lastDetachers(fmt.Sprintf("REPRO last-detachers a=%s b=%s", v[0], v[1]))
+			if e.wedged {
+				break
+			}
 		}
 	}
 	if e.wedged {
